@@ -438,9 +438,31 @@ func (p *Proof) computeAllowed(fr *Frame, c *Contract) {
 			continue
 		}
 		if p.allowAll {
-			// only the ghost items matter once the whole heap may change
-			if id, ok := m.Expr.(*ast.Ident); !ok || !strings.HasPrefix(id.Name, "ghost__") {
+			// once the whole heap may change only ghosts and package variables still have to be named
+			id, ok := m.Expr.(*ast.Ident)
+			if !ok {
+				if _, isLit := m.Expr.(*ast.BasicLit); isLit {
+					env.havocLvalue(m, allowed)
+				}
+				if sel, isSel := m.Expr.(*ast.SelectorExpr); isSel {
+					if x, isID := sel.X.(*ast.Ident); isID {
+						if pk, _ := env.tryPkg(x.Name); pk != nil {
+							env.havocLvalue(m, allowed)
+						}
+					}
+				}
 				continue
+			}
+			if !strings.HasPrefix(id.Name, "ghost__") {
+				isPkgVar := false
+				if env.pkg != nil {
+					if _, ok := env.pkg.Scope().Lookup(id.Name).(*types.Var); ok {
+						isPkgVar = true
+					}
+				}
+				if !isPkgVar {
+					continue
+				}
 			}
 		}
 		env.havocLvalue(m, allowed)
@@ -534,7 +556,31 @@ func (p *Proof) frameClauses(st *State, eff *effects) []frameClause {
 // frameCheck: heap cells not covered by the modifies clause are unchanged for pre-existing objects.
 func (p *Proof) frameCheck(fr *Frame, c *Contract, out *State) {
 	p.ghostFrameCheck(fr, out)
-	if p.allowAll || p.allowedHeap == nil {
+	if p.allowedHeap == nil {
+		return
+	}
+	if p.allowAll {
+		// "modifies heap" does not cover package variables (callers keep them across the call):
+		// each one must be named, or be unchanged at exit. "modifies everything" covers them.
+		for _, m := range c.Modifies {
+			if id, ok := m.Expr.(*ast.Ident); ok && id.Name == "everything" {
+				return
+			}
+		}
+		var gks []string
+		for k := range out.Heap {
+			if strings.HasPrefix(k, "G:") {
+				gks = append(gks, k)
+			}
+		}
+		sort.Strings(gks)
+		for _, k := range gks {
+			g := p.frameGoal(k, out.Heap[k])
+			if g == tTrue {
+				continue
+			}
+			p.oblige(fmt.Sprintf("%s/frame#%s", p.fname, sanitize(k)), "frame", fr.fn.Pos(), out.Guard, g, "package variable not named in the modifies clause is unchanged: "+k)
+		}
 		return
 	}
 	var ks []string
